@@ -1,6 +1,8 @@
 \* C17, quick tier: pairwise cover of (schema feature set x configuration) + seeded rows + short evolutions.
 \* Seed is overwritten by the harness (VERIF_SEED).  -workers 1 (EmitGen prints every Generate step).
-\* Measured: see notes/C17.md
+\* Constants: Extra = 6 seeded rows after the 14 pairwise rows, no cube, chains of MaxEvolve = 3 Generate steps
+\* from every 6th cover row.  Measured: 20 cover rows + 7 known-defect probe rows, 33 Generate steps,
+\* 66 distinct states, depth 6, ~2 s; -coverage 1: Init 27, Generate 33, Evolve 6 (no action at 0).
 CONSTANTS
   Seed = 1
   Extra = 6
